@@ -1,10 +1,15 @@
 /-
-  Model of /repo/c14n as it is now (after the four `fix:` commits: null-first
+  Model of /repo/c14n as it is now (after the five `fix:` commits: null-first
   comma, negative floats, empty/truncated/trailing input rejected, a number
-  beyond 64 bits rejected), function by function.  Core Lean only; executable.
+  beyond 64 bits rejected, encoding checked on the raw text and U+FFFD
+  accepted), function by function.  Core Lean only; executable.
 
   Go                                 model
   ---------------------------------  -----------------------------------------
+  utf8.Valid (trusted, modelled)     `utf8Valid` (the byte ranges of RFC 3629)
+  escapedUnit                        `escapedUnit`
+  utf16.IsSurrogate / DecodeRune     `isSurrogate`, `pairOK`
+  checkEncoding                      `checkEncoding` = `utf8Valid` and `surrogatesPaired`
   json.Decoder.Token (trusted)       a list of `GTok` followed by io.EOF or a
                                      decoder error (`eof : Bool`)
   tokenToValue                       `tokenToValue`
@@ -14,11 +19,17 @@
   encodeString + safeSet + hex       `encodeString` with the *extracted* tables
   Integer/Float/Bool/Null/String     `marshalAtom`
   Array/Object/Attribute.MarshalJSON `marshalJ/marshalL/marshalK`, `attrJoin`
-  CanonicalJSON                      `canonTokens` (tokens → text), `canon` (value → bytes)
+  CanonicalJSON                      `canonText` (raw bytes + the decoder's tokens → text),
+                                     `canonTokens` (tokens → text), `canon` (value → bytes)
 
   Texts are lists of code points (`Chars`); bytes are obtained by `utf8s` at
   the very end.  encodeString walks bytes in Go; on a valid UTF-8 string that
-  is the same as walking scalar values, copying every non-ASCII one.
+  is the same as walking scalar values, copying every non-ASCII one.  A Go
+  string that is *not* valid UTF-8 is represented by a `Str` with an element
+  that is no Unicode scalar value (a surrogate, or a number ≥ 0x110000): the
+  bytes `utf8` writes for such an element are bytes `utf8.DecodeRuneInString`
+  answers `(RuneError, 1)` for, and that is the one case encodeString refuses.
+  `json.Decoder` never yields such a string.
 -/
 import GoblVerif.Model.Json
 import GoblVerif.Generated.C14nFacts
@@ -36,9 +47,6 @@ def hexAt (n : Nat) : Nat := Generated.C14n.hex.getD n 63
 def shortEscape (b : Nat) : Option Nat := (Generated.C14n.shortEscapes.find? (·.1 == b)).map (·.2)
 /-- utf8.RuneSelf -/
 def runeSelf : Nat := Generated.C14n.runeSelf
-/-- utf8.RuneError -/
-def runeError : Nat := 0xFFFD
-
 /-! ## encodeString -/
 
 /-- what follows the backslash for an unsafe ASCII byte (`b>>4`, `b&0xF` on a byte < 0x80) -/
@@ -47,14 +55,17 @@ def escapeAscii (b : Nat) : Chars :=
   | some w => [w]
   | none => [0x75, 0x30, 0x30, hexAt (b / 16), hexAt (b % 16)]
 
-/-- the loop of encodeString over the runes of `s`; `none` = UnsupportedValueError -/
+/-- the loop of encodeString over the runes of `s`; `none` = UnsupportedValueError.
+    `utf8.DecodeRuneInString` answers `(RuneError, 1)` exactly where the bytes are not
+    the encoding of a scalar value (element `c` with `isScalar c = false`, see the
+    header); U+FFFD itself is decoded with size 3 and copied like any other character. -/
 def encodeRunes : Str → Option Chars
   | [] => some []
   | c :: cs =>
     if c < runeSelf then
       if safe c then (encodeRunes cs).map (c :: ·)
       else (encodeRunes cs).map (fun r => 0x5C :: (escapeAscii c ++ r))
-    else if c == runeError then none
+    else if !isScalar c then none       -- `c == utf8.RuneError && size == 1`
     else (encodeRunes cs).map (c :: ·)
 
 def encodeString (s : Str) : Option Chars :=
@@ -286,6 +297,84 @@ def canonTokens (ts : List GTok) (eof : Bool) : Outcome Chars :=
 
 /-- CanonicalJSON from the raw token stream -/
 def canonRaw (ts : List RTok) (eof : Bool) : Outcome Chars := canonTokens (ts.map cook) eof
+
+/-! ## checkEncoding: the raw text, before the decoder sees it -/
+
+/-- a UTF-8 continuation byte -/
+def isCont (b : Nat) : Bool := 0x80 ≤ b && b ≤ 0xBF
+
+/-- lowest second byte after the lead byte `b0` (utf8.Valid's accept ranges: no overlong forms) -/
+def secondLo (b0 : Nat) : Nat := if b0 == 0xE0 then 0xA0 else if b0 == 0xF0 then 0x90 else 0x80
+/-- highest second byte after the lead byte `b0` (no surrogates, nothing above U+10FFFF) -/
+def secondHi (b0 : Nat) : Nat := if b0 == 0xED then 0x9F else if b0 == 0xF4 then 0x8F else 0xBF
+
+/-- `utf8.Valid` (standard library, modelled by the table of RFC 3629 §4) -/
+def utf8Valid : Bytes → Bool
+  | [] => true
+  | b0 :: rest =>
+    if b0 < 0x80 then utf8Valid rest
+    else if 0xC2 ≤ b0 && b0 ≤ 0xDF then
+      match rest with
+      | b1 :: r => isCont b1 && utf8Valid r
+      | _ => false
+    else if 0xE0 ≤ b0 && b0 ≤ 0xEF then
+      match rest with
+      | b1 :: b2 :: r => secondLo b0 ≤ b1 && b1 ≤ secondHi b0 && isCont b2 && utf8Valid r
+      | _ => false
+    else if 0xF0 ≤ b0 && b0 ≤ 0xF4 then
+      match rest with
+      | b1 :: b2 :: b3 :: r => secondLo b0 ≤ b1 && b1 ≤ secondHi b0 && isCont b2 && isCont b3 && utf8Valid r
+      | _ => false
+    else false
+
+/-- the `switch` of escapedUnit on one byte: the value of a hexadecimal digit -/
+def hexDigit (c : Nat) : Option Nat :=
+  if 0x30 ≤ c && c ≤ 0x39 then some (c - 0x30)
+  else if 0x61 ≤ c && c ≤ 0x66 then some (c - 0x61 + 10)
+  else if 0x41 ≤ c && c ≤ 0x46 then some (c - 0x41 + 10)
+  else none
+
+/-- escapedUnit: the UTF-16 code unit of the `\uXXXX` escape the bytes start with; `none` = -1 -/
+def escapedUnit : Bytes → Option Nat
+  | 0x5C :: 0x75 :: a :: b :: c :: d :: _ =>
+    match hexDigit a, hexDigit b, hexDigit c, hexDigit d with
+    | some a, some b, some c, some d => some (((a * 16 + b) * 16 + c) * 16 + d)
+    | _, _, _, _ => none
+  | _ => none
+
+/-- utf16.IsSurrogate (of -1: false) -/
+def isSurrogate : Option Nat → Bool
+  | some r => 0xD800 ≤ r && r < 0xE000
+  | none => false
+
+/-- `utf16.DecodeRune(r1, r2) != unicode.ReplacementChar`: a high surrogate followed by a low one -/
+def pairOK : Option Nat → Option Nat → Bool
+  | some r1, some r2 => 0xD800 ≤ r1 && r1 < 0xDC00 && 0xDC00 ≤ r2 && r2 < 0xE000
+  | _, _ => false
+
+/-- the `for i` loop of checkEncoding.  `skip` is the number of bytes the loop index has been
+    moved beyond the current one (`i++`, `i += 6`), so the recursion is structural:
+    at a backslash the escaped byte is skipped; if the backslash starts the escape of a
+    surrogate, the next escape must be its low half (else: error), and it is skipped too. -/
+def surrogatesPaired : Nat → Bytes → Bool
+  | _, [] => true
+  | skip + 1, _ :: rest => surrogatesPaired skip rest
+  | 0, b :: rest =>
+    if b != 0x5C then surrogatesPaired 0 rest
+    else
+      let r := escapedUnit (b :: rest)
+      if !isSurrogate r then surrogatesPaired 1 rest
+      else if !pairOK r (escapedUnit (rest.drop 5)) then false
+      else surrogatesPaired 7 rest
+
+/-- checkEncoding: `true` = nil error -/
+def checkEncoding (raw : Bytes) : Bool := utf8Valid raw && surrogatesPaired 0 raw
+
+/-- CanonicalJSON on the text `raw`, for which `json.Decoder.Token` (trusted) yields the raw
+    tokens `ts` followed by io.EOF (`eof`) or by a decoder error: UnmarshalJSON reads the
+    input, returns checkEncoding's error if there is one, and only then runs the decoder -/
+def canonText (raw : Bytes) (ts : List RTok) (eof : Bool) : Outcome Chars :=
+  if checkEncoding raw then canonRaw ts eof else .err
 
 /-! ## what `json.Decoder.Token` guarantees about its stream (trusted, modelled)
 
